@@ -90,7 +90,14 @@ def task(W, payload):
     prog = Gen(r, Opts(max_strats=3, force_strat=True, max_flows=6, allow_requests=False, allow_computed=False, shared_names_bias=0.35)).program()
     S = fresh_session(W)
     out = mk_out(prog)
-    if not S.build(prog["build"]):
+    built = S.build(prog["build"])
+    # every flow-adding call must create the same number of flows as the model does (selection by name and strata), whatever happens later
+    for d in S.log:
+        if d.get("stage") == "S1" and d.get("what") in ("n_flows", "raise/no-raise"):
+            d = dict(d); d["prescribed"] = d["what"] == "n_flows" and d.get("op", {}).get("op") == "flow"
+            d["task"] = {"module": "c13", "fn": "task", "payload": payload}; d["program"] = prog["build"]
+            out["diffs"].append(d)
+    if not built:
         bump(out, "build_rejected")
         return out
     m = S.I.model
